@@ -337,7 +337,7 @@ registry.register("C17", {
         "each side is used by one thread at a time (Sender/Receiver are not Clone; &mut self API)",
         "worker: one Sender handle (worker::Sender derives Clone but `senders` is not incremented by clone; clones are outside the model and are not generated)",
         "the no-lost-wake-up invariants are decided, per program-counter case, by vm_compute over the finite arguments of the invariant (SpscEnum.fa_pc / fa_bool); schedules, capacities and programs are covered by the induction",
-        "judge_run (the executable judgement accepts every run of the model) is proved for the cursor, rxring and txrings components (C17_cursor_judge_model, C17_rxring_judge_model, C17_txrings_judge_model), not for spsc and worker; there judge and model agree on every generated case of every run",
+        "judge_run (the executable judgement accepts every run of the model) is proved for the cursor, rxring and txrings components (C17_cursor_judge_model, C17_rxring_judge_model, C17_txrings_judge_model), not for worker; for spsc only partially (C17_spsc_judge_model_partial: the per-operation judgement over try-push / try-pop / drop schedules, without polls, inline mode and the trailer; ingredients proved: C17_spsc_op_terminates, C17_spsc_no_self_notify); there judge and model agree on every generated case of every run",
         "txrings: sequential (operation-granularity) model of socket/io/tx.rs (Tx::queue / TxQueue::push / flush_channel / poll_ready) over 1..3 socket rings, message type without GSO (message::simple), rings stay open; after every burst each socket task looks at its ring (Consumer::acquire) so that the judge knows which rings received messages",
         "rxring: sequential (operation-granularity) model of socket/ring.rs + socket/task/rx.rs, Cooldown::default(), single-socket mode; the interleaving of Producer/Consumer::poll_acquire with the peer's release+wake is not modelled for the platform ring (it has the register-then-recheck shape proved for spsc and worker)",
         "the real-thread component spsc_mt is supporting evidence only",
